@@ -5,5 +5,5 @@ CONSTANTS
   Design = "extracted"
   Emit = FALSE
 SPECIFICATION Spec
-INVARIANTS TypeOK ErrorChanSafe
+INVARIANTS TypeOK ErrorChanSafe TimerSound TimeoutEndsSilence
 PROPERTIES CallReturns SecondCallReturns CloseCompletes
